@@ -194,7 +194,7 @@ fn main() {
         if s.as_str() != before.0 || s.capacity() != before.2 || s.as_ptr() as usize != before.3 {
             what.push(format!("failed/panicking call changed the target: text/cap/ptr before {:?} after {:?}", (&before.0, before.2), (s.as_str(), s.capacity())));
         }
-        if matches!(r, Ok(Err(_))) && !refused && !(op == "reserve" && len.checked_add(a0).map_or(true, |n| n >= 1 << 56)) && !(op == "shrink_to") {
+        if matches!(r, Ok(Err(_))) && !refused && !(op == "reserve" && len.checked_add(a0).map_or(true, |n| n >= 1 << 56)) {
             what.push("ReserveError although the allocator refused nothing and the request is below 2^56".into());
         }
     } else if let (Ok(Ok(got)), Ok(want)) = (&r, &m) {
